@@ -382,12 +382,53 @@ def eval_history(case):
     return out
 
 
+def eval_rekey(case):
+    """one live object whose key is replaced through the public setter after it has already generated / matched
+    (and memoised whatever it memoises): from then on codes are compared with the NEW key's counters only"""
+    from passlib import exc
+
+    keys, alg, digits, period, window = case["keys"], case["alg"], case["digits"], case["period"], case["window"]
+    t = case["t"]
+    out = []
+    try:
+        obj = family_cls("hmac")(keys[0], format="raw", alg=alg, digits=digits, period=period)
+        c = R.floordiv(t, period)
+        old_code, new_code = R.hotp(keys[0], c, digits, alg), R.hotp(keys[1], c, digits, alg)
+        for pre in case["pre"]:
+            if pre == "generate":
+                obj.generate(t)
+            elif pre == "match":
+                obj.match(old_code, t, window=window)
+            elif pre == "mismatch":
+                try:
+                    obj.match("0" * digits if old_code != "0" * digits else "1" * digits, t, window=0)
+                except exc.TokenError:
+                    pass
+        obj.key = keys[1]
+        codes = [R.hotp(keys[1], k, digits, alg) for k in range(max(0, c - 3), c + 4)]
+        for label, code, expect_match in (("new_key_code", new_code, True), ("old_key_code", old_code, old_code in codes)):
+            try:
+                m = obj.match(code, t, window=window)
+                got = ("match", m.counter)
+            except exc.TokenError as e:
+                got = (type(e).__name__,)
+            if expect_match and got[0] != "match":
+                out.append((f"C14|rekey|{label}:rejected", f"after {case['pre']} and 'obj.key = <new key>': match({code!r}) [the {label.replace('_', ' ')} for counter {c}] -> {got!r}"))
+            elif not expect_match and got[0] == "match":
+                out.append((f"C14|rekey|{label}:accepted", f"after {case['pre']} and 'obj.key = <new key>': match({code!r}) [a code of the REPLACED key] -> {got!r}"))
+    except Exception as e:  # noqa: BLE001
+        out.append((f"C14|rekey|raises:{type(e).__name__}", f"{case['pre']}: raised {e!r}"))
+    return out
+
+
 def replay(case):
     bad = R.self_check()
     if bad:
         raise HarnessError(f"totp reference fails its own vectors: {bad}")
     if case["kind"] == "history":
         return eval_history(case)
+    if case["kind"] == "rekey":
+        return eval_rekey(case)
     return eval_match(case)[0]
 
 
@@ -415,6 +456,25 @@ def work(task):
     _VFY[1] = 1 if task.get("quick", True) else 4
     if task["part"] == "history":
         return explore(task)
+    if task["part"] == "rekey":
+        import itertools
+
+        acc = Acc()
+        keys = [filler(task["seed"], 20, b"rk0"), filler(task["seed"], 20, b"rk1")]
+        for alg in ("sha1", "sha256", "sha512"):
+            for digits, period, window in ((6, 30, 30), (8, 1, 0), (6, 3, 5)):
+                for n in range(0, 3):
+                    for pre in itertools.product(("generate", "match", "mismatch"), repeat=n):
+                        for t in (0, 59, 1111111109):
+                            case = {"kind": "rekey", "keys": keys, "alg": alg, "digits": digits, "period": period, "window": window, "pre": list(pre), "t": t}
+                            acc.ev()
+                            acc.cls("rekey", alg, digits, period, window, "/".join(pre), t)
+                            found = eval_rekey(case)
+                            for k, d in found:
+                                acc.violation(k, d, case)
+                            acc.outcome("violation" if found else "ok:rekey")
+        acc.axis("part", "rekey")
+        return acc
     acc = Acc()
     fam, key, alg, digits, period, window, skew = (task[k] for k in ("fam", "key", "alg", "digits", "period", "window", "skew"))
     part = task["part"]
@@ -547,6 +607,7 @@ def run(ctx):
                            "period": period, "window": window, "skew": skew, "top": top,
                            "times": list(range(0, tmax + 1, stride)), "state_cap": 2 ** (top + 1) + 2, "quick": ctx.quick})
     ctx.log(f"{len(tasks)} product shards, {len(htasks)} history explorations")
+    htasks.append({"part": "rekey", "seed": seed, "quick": ctx.quick})
     hacc = core.pmap(work, htasks + tasks)
     states = hacc.counters.pop("states", 0)
     transitions = hacc.counters.pop("transitions", 0)
@@ -554,7 +615,7 @@ def run(ctx):
     ctx.cov["states"] = states
     ctx.cov["transitions"] = transitions
     ctx.cov["traces_validated_against_impl"] = transitions
-    ctx.cov["history_explorations"] = len(htasks)
+    ctx.cov["history_explorations"] = len([t for t in htasks if t["part"] == "history"])
     ctx.cov["product_match_calls"] = hacc.counters.get("product_evaluations", 0) + hacc.counters.get("forms_evaluations", 0)
     ctx.cov["explanation"] = (
         "states/transitions belong to the E2 history exploration: every transition is one real TOTP.match() call whose "
